@@ -577,7 +577,7 @@ func (o *c01Obs) After(w *wWorld, st *wStep) *kit.Viol {
 		for _, f := range st.Frames[s.Sess] {
 			if f.Meta != nil && f.Meta.Id == s.ReqID && f.Meta.Desc != nil && f.Meta.Desc.Acs != nil && strings.Contains(wEffMode(f.Meta.Desc.Acs), "R") {
 				got := f.Meta.Desc.SeqId
-				if stored, _, _ := mem.A.TopicCounters(s.Route); got != t.last && len(t.failed) > 0 && got == stored && got > t.last {
+				if stored, _, _ := mem.A.TopicCounters(s.Route); got != t.last && len(t.failed) > 0 && got <= stored && got > t.last { // (<=: a second failed save after the reload bumps the stored counter once more)
 					v := kit.V("number-burnt-by-failed-save", "{get desc} on %s shows seq %d, last issued number is %d: a failed save bumped the stored counter and the topic was reloaded from the store", s.Route, got, t.last)
 					if o.known != nil && o.known(v) {
 						t.last = got
